@@ -25,6 +25,8 @@ import (
 	"path/filepath"
 	"strconv"
 	"strings"
+
+	"golang.org/x/tools/go/ast/astutil"
 )
 
 const shimPath = "verif/harness/internal/vsync"
@@ -38,7 +40,125 @@ var provided = map[string]map[string]bool{
 	"math/rand":   {"Intn": true},
 }
 
-func rewrite(src string) ([]byte, error) {
+// plainFields: the fields of struct cacheEntry that are ordinary shared variables: not of a sync type and
+// never passed by address to sync/atomic.
+func plainFields(f *ast.File, local map[string]string) map[string]bool {
+	res := map[string]bool{}
+	ast.Inspect(f, func(n ast.Node) bool {
+		ts, ok := n.(*ast.TypeSpec)
+		if !ok || ts.Name.Name != "cacheEntry" {
+			return true
+		}
+		st, ok := ts.Type.(*ast.StructType)
+		if !ok {
+			return true
+		}
+		for _, fl := range st.Fields.List {
+			if sel, ok := fl.Type.(*ast.SelectorExpr); ok {
+				if x, ok := sel.X.(*ast.Ident); ok && local[x.Name] != "" {
+					continue // sync.Mutex etc.
+				}
+			}
+			for _, nm := range fl.Names {
+				res[nm.Name] = true
+			}
+		}
+		return false
+	})
+	ast.Inspect(f, func(n ast.Node) bool { // &e.done handed to atomic.*: not plain
+		c, ok := n.(*ast.CallExpr)
+		if !ok {
+			return true
+		}
+		if sel, ok := c.Fun.(*ast.SelectorExpr); ok {
+			if x, ok := sel.X.(*ast.Ident); ok && local[x.Name] == "sync/atomic" {
+				for _, a := range c.Args {
+					if u, ok := a.(*ast.UnaryExpr); ok && u.Op == token.AND {
+						if fs, ok := u.X.(*ast.SelectorExpr); ok {
+							delete(res, fs.Sel.Name)
+						}
+					}
+				}
+			}
+		}
+		return true
+	})
+	return res
+}
+
+// instrumentPlain rewrites assignments to and reads of the plain fields of cacheEntry into
+// vsyncgo.PlainStore(&x.f, v) / vsyncgo.PlainLoad(&x.f).  Returns the number of rewritten accesses.
+func instrumentPlain(f *ast.File, fields map[string]bool) (int, error) {
+	n := 0
+	var bad error
+	generated := map[ast.Node]bool{}
+	isPlain := func(e ast.Expr) (*ast.SelectorExpr, bool) {
+		sel, ok := e.(*ast.SelectorExpr)
+		if !ok || !fields[sel.Sel.Name] {
+			return nil, false
+		}
+		if _, ok := sel.X.(*ast.Ident); !ok {
+			return nil, false
+		}
+		return sel, true
+	}
+	call := func(fn string, args ...ast.Expr) *ast.CallExpr {
+		c := &ast.CallExpr{Fun: &ast.SelectorExpr{X: ast.NewIdent("vsyncgo"), Sel: ast.NewIdent(fn)}, Args: args}
+		generated[c] = true
+		return c
+	}
+	astutil.Apply(f, func(c *astutil.Cursor) bool {
+		if generated[c.Node()] {
+			return false
+		}
+		switch x := c.Node().(type) {
+		case *ast.AssignStmt:
+			for _, l := range x.Lhs {
+				if _, ok := isPlain(l); ok {
+					if len(x.Lhs) != 1 || len(x.Rhs) != 1 || x.Tok != token.ASSIGN {
+						bad = fmt.Errorf("unsupported form of assignment to a plain field")
+						return false
+					}
+				}
+			}
+			if sel, ok := isPlain(x.Lhs[0]); ok && len(x.Lhs) == 1 {
+				// the right-hand side may itself read plain fields: instrument it first
+				rhs := x.Rhs[0]
+				st := &ast.ExprStmt{X: call("PlainStore", &ast.UnaryExpr{Op: token.AND, X: sel}, rhs)}
+				generated[st] = true
+				n++
+				c.Replace(st)
+				return false
+			}
+		case *ast.IncDecStmt:
+			if _, ok := isPlain(x.X); ok {
+				bad = fmt.Errorf("unsupported ++/-- on a plain field")
+				return false
+			}
+		case *ast.UnaryExpr:
+			if x.Op == token.AND {
+				if _, ok := isPlain(x.X); ok {
+					bad = fmt.Errorf("address of a plain field is taken")
+					return false
+				}
+			}
+		}
+		return true
+	}, func(c *astutil.Cursor) bool {
+		if sel, ok := c.Node().(*ast.SelectorExpr); ok && !generated[sel] {
+			if _, ok := isPlain(sel); ok {
+				if _, isField := c.Parent().(*ast.Field); !isField {
+					n++
+					c.Replace(call("PlainLoad", &ast.UnaryExpr{Op: token.AND, X: sel}))
+				}
+			}
+		}
+		return true
+	})
+	return n, bad
+}
+
+func rewrite(src string, plain bool) ([]byte, error) {
 	fset := token.NewFileSet()
 	f, err := parser.ParseFile(fset, src, nil, parser.ParseComments)
 	if err != nil {
@@ -134,6 +254,21 @@ func rewrite(src string) ([]byte, error) {
 	if bad != nil {
 		return nil, bad
 	}
+	nPlain := 0
+	if plain {
+		fields := plainFields(f, local)
+		if len(fields) == 0 {
+			return nil, fmt.Errorf("struct cacheEntry has no plain field to instrument")
+		}
+		var err error
+		nPlain, err = instrumentPlain(f, fields)
+		if err != nil {
+			return nil, err
+		}
+		if nPlain == 0 {
+			return nil, fmt.Errorf("no access to a plain field of cacheEntry found")
+		}
+	}
 	// import used by the rewritten go statements
 	f.Decls = append([]ast.Decl{&ast.GenDecl{Tok: token.IMPORT, Specs: []ast.Spec{
 		&ast.ImportSpec{Name: ast.NewIdent("vsyncgo"), Path: &ast.BasicLit{Kind: token.STRING, Value: strconv.Quote(shimPath)}},
@@ -143,7 +278,7 @@ func rewrite(src string) ([]byte, error) {
 	if err := printer.Fprint(&buf, fset, f); err != nil {
 		return nil, err
 	}
-	fmt.Fprintf(&buf, "\nvar _ = vsyncgo.Go\n\n// GoStatements is the number of go statements that were rewritten.\nconst GoStatements = %d\n", nGo)
+	fmt.Fprintf(&buf, "\nvar _ = vsyncgo.Go\n\n// GoStatements is the number of go statements that were rewritten.\nconst GoStatements = %d\n\n// PlainAccesses is the number of plain accesses to cacheEntry fields that were made scheduling points.\nconst PlainAccesses = %d\n", nGo, nPlain)
 	return buf.Bytes(), nil
 }
 
@@ -168,6 +303,7 @@ package parv
 const Available = false
 const Reason = %q
 const GoStatements = 0
+const PlainAccesses = 0
 
 type Work struct{}
 
@@ -190,27 +326,42 @@ func main() {
 		repo = "/repo"
 	}
 	src := filepath.Join(repo, "par", "work.go")
-	code, err := rewrite(src)
-	if err != nil {
-		writeStub(*out, "rewrite of "+src+" failed: "+err.Error())
-		fmt.Println("pargen: STUB:", err)
-		return
-	}
-	os.RemoveAll(*out)
-	os.MkdirAll(*out, 0o755)
-	os.WriteFile(filepath.Join(*out, "work.go"), code, 0o644)
-	os.WriteFile(filepath.Join(*out, "meta.go"), []byte("// Code generated by harness/cmd/pargen. DO NOT EDIT.\npackage parv\n\nconst Available = true\nconst Reason = \"\"\n"), 0o644)
-	os.WriteFile(filepath.Join(*out, "api_check.go"), []byte("// Code generated by harness/cmd/pargen. DO NOT EDIT.\n"+apiCheck), 0o644)
-	cmd := exec.Command("go", "build", "./"+filepath.ToSlash(*out))
-	b, err := cmd.CombinedOutput()
-	if err != nil {
+	var lastErr string
+	for _, plain := range []bool{true, false} {
+		code, err := rewrite(src, plain)
+		if err != nil {
+			lastErr = err.Error()
+			if plain {
+				fmt.Println("pargen: plain accesses not instrumented:", err)
+				continue
+			}
+			writeStub(*out, "rewrite of "+src+" failed: "+err.Error())
+			fmt.Println("pargen: STUB:", err)
+			return
+		}
+		os.RemoveAll(*out)
+		os.MkdirAll(*out, 0o755)
+		os.WriteFile(filepath.Join(*out, "work.go"), code, 0o644)
+		os.WriteFile(filepath.Join(*out, "meta.go"), []byte("// Code generated by harness/cmd/pargen. DO NOT EDIT.\npackage parv\n\nconst Available = true\nconst Reason = \"\"\n"), 0o644)
+		os.WriteFile(filepath.Join(*out, "api_check.go"), []byte("// Code generated by harness/cmd/pargen. DO NOT EDIT.\n"+apiCheck), 0o644)
+		cmd := exec.Command("go", "build", "./"+filepath.ToSlash(*out))
+		b, err := cmd.CombinedOutput()
+		if err == nil {
+			break
+		}
 		msg := strings.TrimSpace(string(b))
 		if len(msg) > 600 {
 			msg = msg[:600]
+		}
+		lastErr = msg
+		if plain {
+			fmt.Println("pargen: copy with instrumented plain accesses does not compile:", msg)
+			continue
 		}
 		writeStub(*out, "the instrumented copy of "+src+" does not compile: "+msg)
 		fmt.Println("pargen: STUB: copy does not compile:", msg)
 		return
 	}
+	_ = lastErr
 	fmt.Println("pargen: ok", filepath.Join(*out, "work.go"))
 }
